@@ -22,6 +22,7 @@ def obs (st : St) : List String := [" ".intercalate (names.map (showW st.b))]
 
 def step (st : St) : List String → St × List String
   | ["init", w] => let s := { st with b := initRec st.b w }; (s, obs s)
+  | ["connect", w] => let s := { st with b := onConnect st.b w }; (s, obs s)
   | ["submit", w, d] => let s := { st with b := onSubmit st.b w (parseInt d) st.now }; (s, obs s)
   | ["reset", w] => let s := { st with b := reset st.b w }; (s, obs s)
   | ["advance", d] => let s := { st with now := st.now + parseInt d }; (s, obs s)
